@@ -1001,11 +1001,13 @@ func gatherSecuritySchemes(securitySchemes map[string]spec.SecurityScheme, appNa
 		scopes := make([]string, 0, len(req.Scopes))
 		genScopes := make([]GenSecurityScope, 0, len(req.Scopes))
 		if isOAuth2 {
-			for k, v := range req.Scopes {
+			for k := range req.Scopes {
 				scopes = append(scopes, k)
-				genScopes = append(genScopes, GenSecurityScope{Name: k, Description: v})
 			}
 			sort.Strings(scopes)
+			for _, k := range scopes {
+				genScopes = append(genScopes, GenSecurityScope{Name: k, Description: req.Scopes[k]})
+			}
 		}
 
 		security = append(security, GenSecurityScheme{
